@@ -95,6 +95,11 @@ pub trait Interface: ErrorHandler {
                     header = call_header;
                 }
             }
+            else {
+                // An empty program message unit consumed a message terminator, which also
+                // resets the header to the root node.
+                header = self.root_node();
+            }
 
             input = i;
         }
